@@ -50,7 +50,11 @@ type gateSite struct {
 }
 
 var gateSites = []*gateSite{
-	{Pkg: ".", Func: "monitorSubscriptions", Chans: []string{"c.pausech", "c.resumech"}},
+	{Pkg: ".", Func: "monitorSubscriptions", Chans: []string{"c.pausech", "c.resumech", "ctx.Done()"}},
+	{Pkg: ".", Func: "pauseSubscriptions", Chans: []string{"ctx.Done()", "send:c.pausech"}},
+	{Pkg: ".", Func: "resumeSubscriptions", Chans: []string{"ctx.Done()", "send:c.resumech"}},
+	{Pkg: ".", Func: "setState", Chans: []string{"ctx.Done()", "send:c.stateCh"}},
+	{Pkg: ".", Func: "notify", Chans: []string{"ctx.Done()", "send:s.Notifs"}},
 	{Pkg: "server", Func: "run", Chans: []string{"s.NotifyChannel", "s.T.C", "s.ModifyChannel"}},
 	{Pkg: "server", Func: "run", Chans: []string{"s.Session.PublishRequests", "s.NotifyChannel", "s.T.C"}},
 }
@@ -197,7 +201,7 @@ func main() {
 						if !ok {
 							return true
 						}
-						idx := map[string]*ast.UnaryExpr{}
+						idx := map[string]ast.Expr{} // channel expression per case, keyed "expr" or "send:expr"
 						for _, c := range sel.Body.List {
 							cc := c.(*ast.CommClause)
 							var ue *ast.UnaryExpr
@@ -208,9 +212,11 @@ func main() {
 								if len(s.Rhs) == 1 {
 									ue, _ = s.Rhs[0].(*ast.UnaryExpr)
 								}
+							case *ast.SendStmt:
+								idx["send:"+text(s.Chan)] = s.Chan
 							}
 							if ue != nil && ue.Op == token.ARROW {
-								idx[text(ue.X)] = ue
+								idx[text(ue.X)] = ue.X
 							}
 						}
 						for _, ch := range gs.Chans {
@@ -222,13 +228,27 @@ func main() {
 						g := fmt.Sprintf("_simg%d", uniq)
 						var conds []string
 						for _, ch := range gs.Chans {
-							conds = append(conds, fmt.Sprintf("len(%s) > 0", ch))
+							switch {
+							case strings.HasSuffix(ch, ".Done()"):
+								conds = append(conds, strings.TrimSuffix(ch, ".Done()")+".Err() != nil")
+							case strings.HasPrefix(ch, "send:"):
+								e := strings.TrimPrefix(ch, "send:")
+								conds = append(conds, fmt.Sprintf("%s != nil && len(%s) < cap(%s)", e, e, e))
+							default:
+								conds = append(conds, fmt.Sprintf("len(%s) > 0", ch))
+							}
 						}
 						edits = append(edits, edit{off(sel.Pos()), off(sel.Pos()),
 							fmt.Sprintf("%s := simhook.Gate(%q, %s); ", g, gs.Pkg+"."+gs.Func, strings.Join(conds, ", "))})
 						for i, ch := range gs.Chans {
-							ue := idx[ch]
-							edits = append(edits, edit{off(ue.X.Pos()), off(ue.X.End()), fmt.Sprintf("simhook.Pick(%s, %d, %s)", g, i, ch)})
+							x := idx[ch]
+							fn := "Pick"
+							e := ch
+							if strings.HasPrefix(ch, "send:") {
+								fn = "PickSend"
+								e = strings.TrimPrefix(ch, "send:")
+							}
+							edits = append(edits, edit{off(x.Pos()), off(x.End()), fmt.Sprintf("simhook.%s(%s, %d, %s)", fn, g, i, e)})
 						}
 						gs.found++
 						return true
